@@ -2,6 +2,22 @@
 """writes MANIFEST.json from the table below (kept in one place so that it stays valid)"""
 import json
 CHECKS = {
+ "C11": dict(
+   text="Proof by checked certificate, for the float64 coefficients the running classes hold (regenerated on every run; with w = z/2^K all "
+        "polynomials are integer): the translator computes Adj(w), Q(w) = det(I - wA) (Faddeev-LeVerrier), P = Q + w b^T Adj 1, a Bezout "
+        "identity U P + V Q = c != 0 and the bivariate expansion of (1+1e-12)^2 |Q(-u+iy)|^2 - |P(-u+iy)|^2; Lean checks the polynomial "
+        "identities Adj (I - wA) = Q I, the definition of P, the Bezout identity and that the expansion has only non-negative "
+        "coefficients and even powers of y (decide +kernel on all 16 tables incl. RadauIIA19), and PROVES (cert_sound, Mathlib complex "
+        "numbers, list-polynomial evaluation homomorphisms) that a valid certificate implies: for every w with Re w <= 0, of any magnitude, "
+        "Q(w) != 0 (no pole) and |P(w)| <= (1 + 1e-12)|Q(w)|. The certificates are tied to the generated tables of C01/C02 (same "
+        "coefficients). The computed step of the real integrators on y' = lambda y (real and oscillatory-damped, |z| 1e-3..1e8) is compared "
+        "with R(z) evaluated exactly. Not formalised: the elementary step from Adj (I - wA) = Q I to 'the step equals R(z) y0' (written out "
+        "in DESIGN.md).",
+   note="Trusted: Lean kernel, standard axioms, translate.py (certificates are untrusted inputs, only the table extraction is trusted), "
+        "harness. The slack 1e-12 is the effect of rounding the coefficients to float64 (|R| = 1 exactly on the imaginary axis for the "
+        "Gauss/Lobatto IIIA/IIIB families); rounding inside the stage solve is covered by the comparison only.",
+   technique="Lean 4 proof: certificate checking by kernel computation + soundness theorem over C (positivity of a bivariate expansion, Bezout) ",
+   design="5 (C11)"),
  "C06": dict(
    text="Partial proof. Proved for every strictly increasing array of piece end times and every query: the lookup of DenseOutput returns "
         "the piece whose interval contains the query - for forward runs and (with the repaired lookup) for backward runs, where pieces are "
